@@ -20,7 +20,13 @@
 //! no half is dropped early ends without any error, completely (`c20:error`, `c20:incomplete`).
 //! An error that arrives 25 s or more after the last lost datagram is classified by what the
 //! two endpoints still sent while stuck (`c20:flow-credit-lost`, `c20:stuck:silence`,
-//! `c20:stuck:probes-unanswered`, `c20:stuck:writer-silent`, `c20:stuck:no-progress`).
+//! `c20:stuck:probes-unanswered`, `c20:stuck:writer-silent`, `c20:stuck:no-progress`; or, when
+//! that half only waited for the peer and the other direction is the one that lost bytes while
+//! its writer's endpoint kept probing a silent peer, `c20:stuck:peer-probes-unanswered`).
+//! Dialogues on an open stream and targeted multi-faults (`udp_dialog_retx`,
+//! `udp_retx_pair_enum`) are finite-prefix cases: the same completion rule applies, so a
+//! writer that is idle before its FIN and never recovers a twice-lost packet shows up as
+//! `c20:stuck:*` / `c20:error`.
 //! Peer loss: every operation ends no later than loss + k * idle timeout + slack
 //! (`c20:late-error`), nothing is pending at the end (`c20:hang`), and a stream opened with a
 //! secret the server forgot carries no data (`c20:forgotten-secret`).
@@ -112,7 +118,9 @@ fn halves(sc: &StreamCase, rec: &StreamRec, out: &Outcome) -> [Dir; 2] {
     let sw = rec.server_w.lock().unwrap().clone();
     let sr = rec.server_r.lock().unwrap().clone();
     // sequential server whose request reader ended without EOF drops the writer unused
-    let unused = if !sc.server_concurrent && sw.started_at.is_none() && sr.eof_at.is_none() {
+    // (the dialogue server does the same when the first part of the request did not arrive)
+    let sequential = sc.dialog.is_some() || !sc.server_concurrent;
+    let unused = if sequential && sw.started_at.is_none() && sr.eof_at.is_none() {
         sr.finished_at
     } else {
         None
@@ -183,6 +191,21 @@ fn stuck_class(ci: usize, dirs: &[Dir; 2], out: &Outcome) -> Option<(&'static st
         (false, true) => "c20:stuck:writer-silent",
         (true, true) => "c20:stuck:no-progress",
     };
+    // The half that failed first may only have been waiting for the peer (the client of a
+    // dialogue reads the response while its unfinished request is the transfer that is stuck).
+    // Then the other direction tells more: bytes its writer was rid of never reached its
+    // reader, the writer's endpoint kept sending and the reader's endpoint stayed silent. This
+    // never renames a `probes-unanswered` verdict of the first direction.
+    let o = &dirs[1 - i];
+    if key != "c20:stuck:probes-unanswered" && o.r.bytes < o.w.accepted && reader_side > 0 && writer_side == 0 {
+        return Some((
+            "c20:stuck:peer-probes-unanswered",
+            format!(
+                "{} {who} failed at {t_err}us ({err}) although the last datagram was lost at {}us, but that half was only waiting for the peer: the {} is the transfer that is stuck (writer accepted {} of {}, reader got {}); during the {}s before the failure the endpoint of its writer sent {reader_side} datagrams on this client's flow and the endpoint of its reader none",
+                d.name, out.net.last_loss_us, o.name, o.w.accepted, o.wire_len, o.r.bytes, (to - from) / 1_000_000
+            ),
+        ));
+    }
     Some((
         key,
         format!(
@@ -213,7 +236,9 @@ pub fn judge(case: &Case, out: &Outcome, obs: &mut Obs) -> CaseResult {
             // response only after the complete request
             // (a server whose request reader ended otherwise drops the response half unused,
             // which the client sees as an empty response - covered by the end-of-stream rule)
-            if !sc.server_concurrent && dirs[0].r.eof_at.is_some() {
+            // (in a dialogue the response comes before the end of the request by design; the
+            // client only starts to read it after its write of the first part returned)
+            if sc.dialog.is_none() && !sc.server_concurrent && dirs[0].r.eof_at.is_some() {
                 let req_w = &dirs[0].w;
                 let resp_r = &dirs[1].r;
                 if let (Some(first), true) = (resp_r.first_ok_at, resp_r.bytes > 0 || resp_r.eof_at.is_some()) {
